@@ -7,7 +7,7 @@
    ([should_nest] = context.py _should_nest_selectable). *)
 From Coq Require Import List ZArith Bool.
 Import ListNotations.
-From SAV.orm Require Import Loaders LoadersBase LoadersJoin LoadersStmt LoadersSrc LoadersOne LoadersAttach LoadersSubq LoadersMain LoadersTheorems.
+From SAV.orm Require Import Loaders LoadersBase LoadersJoin LoadersStmt LoadersSrc LoadersOne LoadersAttach LoadersSubq LoadersMain LoadersTheorems LoadersKeys.
 Open Scope Z_scope.
 
 (* THE property: every assignment of strategies along the path - lazy, joined, subquery, immediate,
@@ -135,6 +135,33 @@ Theorem c40_chunks_partition : forall (n : nat) (l : list Z), (1 <= n)%nat ->
   concat (chunks n l) = l /\ forall ch, In ch (chunks n l) -> ch <> [] /\ (length ch <= n)%nat.
 Proof. exact (@chunks_partition Z). Qed.
 Print Assumptions c40_chunks_partition.
+
+(* composite keys: selectin groups the fetched rows by the FK columns listed by walking the parent's primary
+   key; for EVERY order in which the join condition lists the column pairs, that key tuple equals the parent's
+   identity key exactly when the join condition holds, so the collection / scalar is the related rows *)
+Theorem c40_selectin_key_order_any_permutation : forall pairs pk p c, wf_pairs pairs pk -> pk_not_null pk p ->
+  key_eqb (map (colval c) (fk_cols pairs pk)) (map (colval p) pk) = joined_on pairs p c.
+Proof. exact key_match_iff_joined. Qed.
+Print Assumptions c40_selectin_key_order_any_permutation.
+
+Theorem c40_selectin_composite_down_eq_spec : forall pairs pk parents children, wf_pairs pairs pk ->
+  Forall (pk_not_null pk) parents ->
+  selectin_down (fk_cols pairs pk) pk parents children = spec_down pairs parents children.
+Proof. exact selectin_down_eq_spec. Qed.
+Print Assumptions c40_selectin_composite_down_eq_spec.
+
+Theorem c40_selectin_composite_up_eq_spec : forall pairs pk parents children, wf_pairs pairs pk ->
+  Forall (pk_not_null pk) parents ->
+  selectin_up (fk_cols pairs pk) pk parents children = spec_up pairs parents children.
+Proof. exact selectin_up_eq_spec. Qed.
+Print Assumptions c40_selectin_composite_up_eq_spec.
+
+(* ... and listing them in the join condition's own order is refuted (mirrored keys (1,2)/(2,1)) *)
+Theorem c40_selectin_key_dict_order_refuted : exists pairs pk parents children,
+  wf_pairs pairs pk /\ Forall (pk_not_null pk) parents /\
+  selectin_down (fk_cols_dict_order pairs pk) pk parents children <> spec_down pairs parents children.
+Proof. exact dict_order_refuted. Qed.
+Print Assumptions c40_selectin_key_dict_order_refuted.
 
 (* non-vacuity: a well-formed three-level example (one-to-many then many-to-one, NULL foreign keys,
    LIMIT/OFFSET, duplicating join + DISTINCT) on which mixed assignments are computed *)
